@@ -104,3 +104,20 @@ Proof.
       apply (validate_fs_spec b roff (roff + rsize)); auto; lia.
   - destruct (Z.ltb_spec (add64 roff rsize) roff) as [L2|G2]; [|lia]. right. right. left. lia.
 Qed.
+
+(* Why the model carries the wrap-around: the same check written by adding offset and size first
+   (what a careless rewrite of validate would do) accepts metadata that is out of bounds. *)
+Definition validate_additive (m : metaJ) (limit : Z) : bool :=
+  if (m_roff m <? 0) || (m_rsize m <? 0) then false
+  else if (limit <? 0) || (add64 (m_roff m) (m_rsize m) >? limit) then false
+  else true.
+
+Lemma validate_additive_unsound :
+  exists m limit, meta_i64 m /\ i64 limit /\ validate_additive m limit = true /\ ~ meta_in m limit /\ validate m limit = false.
+Proof.
+  exists {| m_roff := 1; m_rsize := Max64; m_ffs := 0; m_cnt := (0, 0, 0); m_blocks := [] |}, 1000.
+  split; [unfold meta_i64, i64, Min64, Max64; cbn; repeat split; try lia; constructor|].
+  split; [unfold i64, Min64, Max64; lia|].
+  split; [vm_compute; reflexivity|].
+  split; [unfold meta_in, Max64; cbn; lia|vm_compute; reflexivity].
+Qed.
